@@ -164,11 +164,20 @@ def main(REG):
 
     # 1. theorems
     bad = scan_forbidden()
+    gt_msg = None
+    if cfg.get("gotrans"):
+        # regenerate coq/gen/Gen.v from the current Go source; a function that left the translatable
+        # subset (or disappeared) is a broken tie between code and model
+        rc_g, out_g, _ = sh([os.path.join(V, "lib", "run_gotrans.sh")], timeout=600)
+        if rc_g != 0:
+            gt_msg = out_g[-800:]
     pr = prove(cfg["props"], timeout=cfg.get("proof_timeout", 2400))
     obligations = len(pr["theorems"])
     discharged = obligations if pr["ok"] and not bad else 0
     if bad:
         problems.append({"kind": "forbidden-construct", "what": bad[:10]})
+    if gt_msg:
+        problems.append({"kind": "translator", "what": "gotrans could not translate the current Go source: " + gt_msg})
     if not pr["ok"]:
         problems.append({"kind": "proof-obligation", "theorem_file": cfg["props"], "what": pr.get("failed_at"), "log_tail": pr["log"][-1500:]})
     allowed_axioms = set(cfg.get("allowed_axioms", []))
